@@ -161,7 +161,9 @@ func (d *duplexHTTPCall) Read(data []byte) (int, error) {
 	}
 	verifYield(d.ctx, "read.body")
 	n, err := d.response.Body.Read(data)
-	return n, wrapIfRSTError(err)
+	// A context that finishes while the read is blocked makes the body fail
+	// with the bare context error: classify it before callers wrap it.
+	return n, wrapIfRSTError(wrapIfContextError(err))
 }
 
 func (d *duplexHTTPCall) CloseRead() error {
